@@ -818,6 +818,126 @@ func (g *eng) aclForms() {
 	}
 }
 
+// optionsCases (predicate only, no model line): policies whose only content is 2-3 weighted
+// options with ACL/sequence sub-policies.  Documented rule (evalOptions): options are tried by
+// descending weight; all options of the first weight level at which some option accepts a path
+// contribute; the result is the input paths, in input order, accepted by one of them (paths are
+// identified by their interface list, so equal paths are kept together).
+func (g *eng) optionsCases(n int) {
+	r := g.r
+	for c := 0; c < n; c++ {
+		var paths []*vpath
+		for j := 0; j < 10+r.Intn(8); j++ {
+			paths = append(paths, g.randPath(2+r.Intn(3)))
+		}
+		if r.Chance(50) { // an equal path (same interfaces, different object) later in the list
+			q := paths[r.Intn(len(paths))]
+			paths = append(paths, mkPath(append([]pif{}, q.ifs...)))
+		}
+		in := make([]snet.Path, len(paths))
+		for i, p := range paths {
+			in[i] = p
+		}
+		type opt struct {
+			w   int
+			acl []aclEntry
+			x   *ex
+		}
+		k := 2 + r.Intn(2)
+		opts := make([]opt, k)
+		var pol []pathpol.Option
+		var desc []string
+		for i := range opts {
+			o := opt{w: r.Intn(2)} // equal weights are frequent
+			if r.Chance(70) {
+				o.acl = g.randACL(true)
+			}
+			if o.acl == nil || r.Chance(40) {
+				// a sequence drawn towards one of the paths so that options accept different subsets
+				q := paths[r.Intn(len(paths))]
+				hs, _ := q.hopList()
+				cur := &ex{op: "star", a: &ex{op: "h", p: pred{}}}
+				if len(hs) > 0 {
+					h := hs[r.Intn(len(hs))]
+					hp := &ex{op: "h", p: pred{isd: uint64(h.isd), as: asLit{2, h.as, addr.AS(h.as).String(), true}}}
+					cur = &ex{op: "cat", a: cur, b: &ex{op: "cat", a: hp, b: cur}}
+				}
+				o.x = cur
+			}
+			opts[i] = o
+			text := ""
+			if o.x != nil {
+				text = o.x.text(nil)
+			}
+			seq, err := pathpol.NewSequence(text)
+			if err != nil {
+				panic(err)
+			}
+			var acl *pathpol.ACL
+			var ts []string
+			if o.acl != nil {
+				acl = mkACL(o.acl)
+				for _, en := range o.acl {
+					ts = append(ts, en.text())
+				}
+			}
+			sub := pathpol.NewPolicy(fmt.Sprintf("o%d", i), acl, seq, nil)
+			pol = append(pol, pathpol.Option{Weight: o.w, Policy: &pathpol.ExtPolicy{Policy: sub}})
+			desc = append(desc, fmt.Sprintf("w=%d acl=%v seq=%q", o.w, ts, text))
+		}
+		top := pathpol.NewPolicy("top", nil, nil, pol)
+		ans, ok := vlib.Safe(func() string {
+			m, err := maskOf(in, top.Filter(in))
+			if err != nil {
+				return "not-a-sublist"
+			}
+			return m
+		})
+		// expected, from the rule
+		acc := func(o opt, p *vpath) bool {
+			if o.acl != nil && !aclAccepts(o.acl, p) {
+				return false
+			}
+			if o.x != nil {
+				hs, hok := p.hopList()
+				return hok && o.x.denotes(hs)
+			}
+			return true
+		}
+		key := func(p *vpath) string { return p.word() }
+		set := map[string]bool{}
+		for _, w := range []int{1, 0} {
+			for _, o := range opts {
+				if o.w == w {
+					for _, p := range paths {
+						if acc(o, p) {
+							set[key(p)] = true
+						}
+					}
+				}
+			}
+			if len(set) > 0 {
+				break
+			}
+		}
+		want := make([]byte, len(paths))
+		for i, p := range paths {
+			want[i] = '0'
+			if set[key(p)] {
+				want[i] = '1'
+			}
+		}
+		tag := fmt.Sprintf("options/%d", k)
+		g.e.Case("opt "+strings.Join(desc, ";")+"|"+pathWords(paths), tag, !strings.Contains(string(want), "1"))
+		rep := map[string]any{"options": desc, "paths": pathWords(paths), "got": ans, "want": string(want)}
+		if !ok || ans == "not-a-sublist" {
+			g.e.Violate("C47/policy-options-order", "Policy.Filter with options did not return an order-preserving sub-list of the input (order changed, path lost or duplicated): "+ans, rep)
+		} else if ans != string(want) {
+			g.e.Violate("C47/policy-options", "Policy.Filter with options keeps a path no winning option accepts or drops one it accepts", rep)
+		}
+	}
+}
+
 func (g *eng) aclCase(es []aclEntry, valid bool, paths []*vpath) {
 	e := g.e
 	in := make([]snet.Path, len(paths))
@@ -955,7 +1075,7 @@ func main() {
 		"forms and spellings) as `0* P 0*` x all 2-hop paths (quick: a seeded third) + random 3/4-hop paths; (b) all expressions with <= 2 operators " +
 		"(quick: a seeded sample; thorough: all) over 6 predicates x all interface lists of length 0,2,4 over 4 interfaces; " +
 		"(c) random expressions of depth <= 4 with random redundant parentheses/blanks x random paths of 0,2,3,4 hops and " +
-		"odd interface lists; (c') extremes: ASes 65535, 65536, 99999, 100000, 131072, 4200000001, 2^32-1, 2^32, 2^48-1 (every spelling), ISD 65535, interface 65535 as source/transit/destination against wildcard and literal predicates in 5 (thorough: 9) expression shapes; (d) random ACLs / policies (valid default entry; a few without, for the panic branch) x random " +
+		"odd interface lists; (c') extremes: ASes 65535, 65536, 99999, 100000, 131072, 4200000001, 2^32-1, 2^32, 2^48-1 (every spelling), ISD 65535, interface 65535 as source/transit/destination against wildcard and literal predicates in 5 (thorough: 9) expression shapes; (d) (e) predicate only: policies with 2-3 weighted options (equal and different weights, ACL/sequence sub-policies accepting different, interleaving subsets, equal paths repeated) judged against the documented weight rule and order preservation; random ACLs / policies (valid default entry; a few without, for the panic branch) x random " +
 		"paths; one op = one expression (ACL) against a batch of paths; non-trivial = at least one path kept; predicate: " +
 		"independent matcher over the hop list, order-preserving sub-list"
 
@@ -1070,6 +1190,7 @@ func main() {
 	}
 	// (d) ACL and policy
 	g.aclForms()
+	g.optionsCases(e.N(1500, 20000))
 	k := e.N(1500, 30000)
 	for i := 0; i < k; i++ {
 		var paths []*vpath
